@@ -31,19 +31,30 @@ PROPS = {
         "world": "P", "level": "exploration",
         "rule": "One case = seeded knobs (as world S, plus message drop/duplicate/reorder rates and the raft log sync interval) + a seeded list of scheduler steps: "
                 "client write batches with overwrites (synchronous, or left in flight), run the cluster for some virtual time, deliver a few messages only, "
-                "crash a node chosen by role (raft leader / master partition owner / follower; optionally losing the un-observed tail of its disk journal, "
-                "optionally with a torn last write), restart it on the crash image, isolate a node's raft links / pause a node (unreachable for clients too, failed "
+                "crash a node chosen by role (raft leader / master partition owner / follower; optionally losing the un-observed tail of its disk journal - a share of it, "
+                "or all of it: the earliest legal kill instant, right after the victim's last observed action - optionally with a torn last write), restart it on the crash image, isolate a node's raft links / pause a node (unreachable for clients too, failed "
                 "over by the meta service, resumed later) / heal, flush a node, read the master. Optionally the universe spans two shard groups (two shards per "
-                "partition, the second group created by the first write into it) and the stores' catalogue caches lag. At most one node is down, paused or "
-                "isolated at a time. After every delivered message the committed prefixes of all live nodes are compared; after every acknowledgement "
+                "partition, the second group created by the first write into it) and the stores' catalogue caches lag. A quarter of the cases aims at raft's persist-before-send rule (in these, and in 30 % of the others, every "
+                "file-system mutation of a node first yields to the node's other goroutines, so that a message handed to the sender goroutine leaves before the disk writes that follow "
+                "it in program order): ack_kill (one follower's links are slow for <= 3 s, a synchronous write is acknowledged on the other follower's answer alone and deliveries "
+                "stop at that instant, that follower is killed at the earliest legal instant and restarted, the leader is killed before the entry reached the third node, the survivors "
+                "elect, read), leader_ack_kill (the leader / master is killed at the earliest legal instant after it answered the client), vote_kill (the leader is isolated until a vote "
+                "request is queued, heal, the third node's links are slow, the voter is killed right after its granted vote arrived and restarted, vote messages first), "
+                "send_kill_storm (the general mix with few deliveries at a time, clock steps without deliveries, slow links, kills of the isolated node, earliest-instant kills). "
+                "Further steps: the meta service's TransferLeadership towards the master partition. At most one node is down, paused or "
+                "isolated at a time (an isolated node may itself be killed). After every delivered message the committed prefixes of all live nodes are compared; after every acknowledgement "
                 "and at read steps the master partition's shard is compared with the last-write-wins model; at the end faults stop, a probe write must commit "
                 "and all replicas must equal the model, then a further node is killed and the master is read again. Non-trivial = at least one crash and two "
                 "acknowledged writes; distinct = digest of knobs + steps.",
         "eval_extra": ["reads", "prefix_checks"],
         "probes": ["crash of the raft leader", "crash of the master partition owner", "crash with a write in flight", "crash that lost a journal tail",
                    "crash inside a memtable flush", "restart replayed raft entries", "leader changed", "master partition changed", "write retried by the client",
-                   "proposal forwarded to the leader", "shard group created by a write", "a write without acknowledgement took effect"],
-        "assumptions": ["crash model = process kill; a crash image is the node's disk journal cut at or after the last instant at which the node sent a message or answered a client",
+                   "proposal forwarded to the leader", "shard group created by a write", "a write without acknowledgement took effect",
+                   "kill between send and persist (earliest cut)", "leader killed before re-replication",
+                   "node killed right after its append acknowledgement was delivered (earliest cut)", "node killed right after its granted vote was delivered (earliest cut)",
+                   "node killed right after it answered the client (earliest cut)"],
+        "assumptions": ["crash model = process kill at a local instant t: every file-system mutation before t survives, everything after t is lost - later mutations and later sends alike; t may lie in the past only as far as nothing the node did after t has been observed (a message delivered counts with the journal length at its send instant, so does an answered client and a committed entry the harness learned from that disk); messages sent after t are still queued and vanish with the process",
+                        "hand-over of a raft message to the simulated network happens when the node's sender goroutine calls the transport; with yield the node's goroutines are rescheduled before every file-system mutation (one of the legal schedules of the same code); a slow link (hold, <= 3 s) delays messages in order and is not counted as a fault",
                         "one virtual clock for all nodes (no skew); timing is judged only after faults stop (B = 60 s for a probe write, B' = 60 s for replica convergence)",
                         "a write the client got no acknowledgement for (error, timeout, connection lost, still in flight) may take effect at any later time or never (per cell), nothing else is relaxed",
                         "journal cuts do not split a group of raft.meta writes unless the case has split_meta (that is lib/raftlog's subject, C17); the order of file operations of concurrent goroutines inside one flush is a race in the code and not controlled",
